@@ -4,7 +4,7 @@ from . import _secp as S
 ID = "C06"
 EXTRA_TARGETS = ["Proofs/EcdsaRefine.vo", "Proofs/EcdsaAbstractInst.vo"]
 LEVEL = "partial"
-RULE = ("(r, s) in {1, 2, 0x7f, 0x80, 2^247.., 2^248-1, 2^255-1, 2^255, n/2, n/2+1, n-2, n-1, random} (and rejected: 0, n, 2^256-1, "
+RULE = ("deterministic members of the leading-zero-byte class (r = x(kG) < 2^248 / 2^240, small s) in every encoding and in recovery; identity-recovering compact signatures (R = kG, s = z/k) for nine fixed and some random k covering both parities of y(R), both compression markers, digest and message form, with the other parity / other message as controls; (r, s) in {1, 2, 0x7f, 0x80, 2^247.., 2^248-1, 2^255-1, 2^255, n/2, n/2+1, n-2, n-1, random} (and rejected: 0, n, 2^256-1, "
         "wrong lengths), s biased so that the final DER byte takes each of the fourteen flag values; DER round trip, DER+flag round "
         "trip for all fourteen flags (all 256 flag bytes in the thorough tier); from_der / SighashSignature::from_bytes on every "
         "truncation and every single-byte mutation (xor 01, xor 80, 00, ff; all 255 values in the thorough tier) of valid encodings, "
@@ -32,6 +32,71 @@ ASSUMPTIONS = ["'malformed DER is rejected' is proved for the Gallina codec (der
 N = S.N
 FLAGS = S.FLAGS
 SPECIAL = [1, 2, 0x7F, 0x80, 0xFF, 0x100, 2 ** 247, 2 ** 248 - 1, 2 ** 248, 2 ** 255 - 1, 2 ** 255, N // 2, N // 2 + 1, N - 2, N - 1]
+
+
+# nonces k with x(kG) < 2^248 (153, 246: y even; 1158, 1417: y odd) and < 2^240 (44629, 58165: y odd)
+LZ_NONCES = [153, 246, 1158, 1417, 44629, 58165]
+# nonces for the identity-recovering signatures: both parities of y(kG) occur (asserted below)
+ID_NONCES = [1, 2, 3, 5, 153, 1158, 0x1234567, N - 1, N - 2]
+
+
+def leading_zero_and_identity_cases(A, rng, thorough):
+    H = S.h32
+    # ---- r / s with leading zero bytes in every encoding (fixed-width compact fields, minimal DER integers) ----
+    lz_r = [S.mul(k, S.G)[0] for k in LZ_NONCES]
+    assert all(x < 2 ** 248 for x in lz_r) and lz_r[4] < 2 ** 240
+    lz_vals = lz_r + [2 ** 247, 2 ** 240 - 1, 0xFF, 0x80, 1]
+    for v in lz_vals:
+        w = rng.choice(lz_vals)
+        A("sig.der_roundtrip", [H(v), H(w)])
+        A("sig.der_roundtrip", [H(rng.randrange(1, N)), H(v)])
+        A("sig.compact", [H(v), H(w), rng.randrange(4), rng.randrange(2)])
+        A("sig.compact", [H(rng.randrange(1, N)), H(v), rng.randrange(4), rng.randrange(2)])
+        A("sig.from_compact", ["%02x" % rng.randrange(27, 35) + H(v) + H(w)])
+        A("sighashsig.roundtrip", [H(v), H(w), rng.choice(FLAGS)])
+        A("sig.from_der", [S.der(v, w).hex()])
+        A("sighashsig.parse", [(S.der(w, v) + bytes([rng.choice(FLAGS)])).hex()])
+    # genuine signatures with such r (caller nonce, made by the Python ECDSA): recovery with the right and the wrong id
+    for k in LZ_NONCES:
+        d = rng.randrange(1, N)
+        mb = bytes(rng.randrange(256) for _ in range(rng.randrange(1, 40)))
+        double = rng.random() < 0.5
+        r, s_, odd = S.sign(d, k, int.from_bytes(S.h256(mb, double), "big") % N)
+        c = rng.randrange(2)
+        A("sig.recover", ["%02x" % (27 + odd + 4 * c) + H(r) + H(s_), mb.hex(), "sha256d" if double else "sha256"])
+        A("sig.recover_digest", ["%02x" % (27 + (1 - odd) + 4 * (1 - c)) + H(r) + H(s_), S.h256(mb, double).hex()])
+    # signatures made by the library whose r or s starts with a zero byte (found by search, see tools/props/c05.py LZ_DET)
+    for (d, m, hn) in [(1, b"lz62", "sha256"), (1, b"lz49", "sha256"), (1, b"lz37", "sha256d"), (1, b"lz56", "sha256d")]:
+        r, s_, _ = S.sign_msg(d, m, hn == "sha256d")
+        assert r < 2 ** 248 or s_ < 2 ** 248
+        A("sig.sign_recover", [H(d), rng.randrange(2), m.hex(), hn, 0, m.hex(), hn])
+    # ---- signatures that recover to the point at infinity: R = kG, r = x(R) mod n, s = z / k mod n  (s*R = z*G) ----
+    parities = set()
+    nonces = ID_NONCES + ([rng.randrange(1, N) for _ in range(20)] if thorough else [rng.randrange(1, N) for _ in range(3)])
+    for k in nonces:
+        R = S.mul(k, S.G)
+        r, odd = R[0] % N, R[1] & 1
+        parities.add(odd)
+        kinv = pow(k, N - 2, N)
+        # digest form: any z; message form: z = H(m) mod n
+        z = rng.randrange(1, N)
+        s_ = z * kinv % N
+        assert S.mul(s_, R) == S.mul(z, S.G)
+        for c in (0, 1):
+            A("sig.recover_digest", ["%02x" % (27 + odd + 4 * c) + H(r) + H(s_), H(z)])          # identity: must be an error
+        A("sig.recover_digest", ["%02x" % (27 + (1 - odd) + 4) + H(r) + H(s_), H(z)])            # other parity: an ordinary key
+        if z + N < 2 ** 256:
+            A("sig.recover_digest", ["%02x" % (27 + odd) + H(r) + H(s_), H(z + N)])              # digest >= n, same z
+        for hn in ("sha256", "sha256d"):
+            mb = bytes(rng.randrange(256) for _ in range(rng.randrange(0, 50)))
+            zm = int.from_bytes(S.h256(mb, hn == "sha256d"), "big") % N
+            sm = zm * kinv % N
+            if sm == 0:
+                continue
+            c = rng.randrange(2)
+            A("sig.recover", ["%02x" % (27 + odd + 4 * c) + H(r) + H(sm), mb.hex(), hn])         # identity
+            A("sig.recover", ["%02x" % (27 + odd + 4 * c) + H(r) + H(sm), mb.hex() + "00", hn])  # other message: a key
+    assert parities == {0, 1}
 
 
 def rscalar(rng):
@@ -194,6 +259,9 @@ def generate(rng, tier):
     A("sig.recover_digest", ["00" + GX + one, one])
     A("sig.recover", ["1f" + GX, "00", "sha256"])
     A("sig.recover_digest", ["1b" + GX + one, H(0)])                         # z = 0
+
+    # ---------------------------------------------------------------- leading zero bytes; recovery to the identity
+    leading_zero_and_identity_cases(A, rng, thorough)
 
     # ---------------------------------------------------------------- sign -> compact -> parse -> recover through the library
     for _ in range(12 * mult):
